@@ -21,6 +21,7 @@ type ByzSpec struct {
 	P       []int  `json:"p,omitempty"`        // strategy-specific parameters
 	Inst    uint64 `json:"inst,omitempty"`     // offset added to the instance id of everything this injection signs (0 = this instance)
 	HdrOnly bool   `json:"hdr_only,omitempty"` // nv: only the outer NEW_VIEW header (and the embedded proposal) carry the foreign instance id; the votes are for this instance
+	Tailor  bool   `json:"tailor,omitempty"`   // nv: one NEW_VIEW per recipient, the recipient's own signatures removed from the adversary's proofs (a node never verifies its own signature)
 }
 
 // Adversary holds the Byzantine and outsider keys. It can sign only with those, and can copy anything it has observed.
@@ -32,6 +33,7 @@ type Adversary struct {
 	// Proposals the adversary itself has injected (stand-alone or inside a NEW_VIEW); "support" backs them with PREPAREs and COMMITs
 	Proposals []AdvProposal
 	instOff   uint64
+	tailorFor int // >= 0 while a NEW_VIEW tailored for that recipient is being built
 }
 
 type AdvProposal struct {
@@ -41,7 +43,7 @@ type AdvProposal struct {
 }
 
 func newAdversary(w *World) *Adversary {
-	return &Adversary{w: w, Disabled: map[string]bool{}, Excluded: map[string]int{}}
+	return &Adversary{w: w, Disabled: map[string]bool{}, Excluded: map[string]int{}, tailorFor: -1}
 }
 
 // owns: the adversary may sign as identity i.
@@ -430,6 +432,23 @@ func (a *Adversary) Do(s *ByzSpec) {
 			r := a.ref(TC, h, src.Meta.V, []byte(src.Meta.Hash))
 			a.inject("follow-commit", &MsgSpec{Union: UC, Ref: r, Sender: a.signedRef(b, r), Share: a.share(b, h)}, s.To)
 		}
+	case "liftall": // every PREPARE / COMMIT a correct member signed at (h,v) of one of the adversary's proposals is re-sent with the hash of that
+		// proposal in place of the one it was signed for - sender and signature bytes untouched (bytes the receivers may have verified before)
+		if len(a.Proposals) == 0 {
+			return
+		}
+		p := a.Proposals[len(a.Proposals)-1-par(s, 0)%len(a.Proposals)]
+		for _, o := range append([]*SentMsg{}, w.Seen...) {
+			if (o.Meta.Union != UP && o.Meta.Union != UC) || o.Meta.H != p.H || o.Meta.V != p.V || o.Meta.Hash == string(p.Hash) {
+				continue
+			}
+			sp := SpecOf(o.Raw)
+			if sp == nil {
+				continue
+			}
+			sp.Ref.Hash = p.Hash
+			a.inject("lifted-signature", sp, s.To)
+		}
 	case "votes": // every Byzantine member sends a plain (proof-less) or best-proof VIEW_CHANGE for (h, v) to that view's leader
 		for _, b := range w.Cfg.Byz {
 			var proof *ProofSpec
@@ -578,6 +597,18 @@ func (a *Adversary) Do(s *ByzSpec) {
 // P3 embedded header mode: 0 consistent; 1 embedded hash differs from the attached block; 2 embedded view v+1; 3 signed by non-leader key
 // P4 drop genuine votes that carry a proof (1) / keep (0)
 func (a *Adversary) newView(s *ByzSpec) {
+	if s.Tailor && a.tailorFor < 0 {
+		for i := 0; i < a.w.Cfg.N; i++ {
+			if s.To>>uint(i)&1 == 1 && a.w.IsCorrect(i) {
+				one := *s
+				one.To = 1 << uint(i)
+				a.tailorFor = i
+				a.newView(&one)
+			}
+		}
+		a.tailorFor = -1
+		return
+	}
 	w := a.w
 	h, v := s.H, s.V
 	if v == 0 {
@@ -629,6 +660,16 @@ func (a *Adversary) newView(s *ByzSpec) {
 		if ownProof = a.mixedProof(h, v, ownBlock); ownProof == nil {
 			ownBlock = nil
 		}
+	}
+	if ownProof != nil && a.tailorFor >= 0 { // drop the recipient's own PREPARE signature from the certificate
+		q := *ownProof
+		q.PSenders = nil
+		for _, ps := range ownProof.PSenders {
+			if !primitives.MemberId(ps.ID).Equal(w.IDs[a.tailorFor]) {
+				q.PSenders = append(q.PSenders, ps)
+			}
+		}
+		ownProof = &q
 	}
 	if mode != 3 {
 		for _, b := range w.Cfg.Byz {
